@@ -1,7 +1,9 @@
 import Genq.Props.C17
 open Genq.Files
+open Genq
 #print axioms C17_collect_perm
 #print axioms C17_split_graphql
 #print axioms C17_literal_equals_file
 #print axioms C17_unselected_literal_ignored
 #print axioms C17_comment_scan_local
+#print axioms C17_expandFilenames_tie
